@@ -486,7 +486,9 @@ func (e *Engine) doAssert(st *State, cond *Term, label string) {
 	neg := e.ts.Not(cond)
 	q := append(append([]*Term(nil), st.pc...), neg)
 	r, m := e.solver.Check(q, true)
-	if e.cross != nil && r != Unknown {
+	// (a sample: the first 20 verdict queries of a job and every 200th after that - re-deciding all of
+	// them took the graph check from 3 minutes to over 50)
+	if e.cross != nil && r != Unknown && (e.res.CrossChecked < 20 || e.res.Obligations%200 == 0) {
 		// cross-solver tier: the verdict query is re-decided by a second solver
 		r2, _ := e.cross.Check(q, false)
 		e.res.CrossChecked++
